@@ -38,6 +38,7 @@ class Runner:
         self.order_rng = random.Random(order_seed) if order_seed is not None else None
         if isinstance(start, str):
             start = _dt.datetime.fromisoformat(start)
+        self.opts_temps = opts.get("temps")
         self.sys = PoolSystem(start=start, **opts)
         self.world = self.sys.world
         self.monitors = monitors or []
